@@ -45,10 +45,10 @@ pub mod solver {
     }
 }
 
-/// bounded stand-in: powi(x, -n) is bit-identical to powi(x, n).recip() for 0 < n <= 7 (real operators, cvc5)
+/// bounded stand-in: powi(x, -n) is bit-identical to powi(x, n).recip() for 0 < n <= 3 (real operators, cvc5)
 fn powi_neg_case() {
     let x = any_tf(); let n = any_i32!();
-    vassume!(n > 0 && n <= 7);
+    vassume!(n > 0 && n <= 3);
     vassert!(same_tf(&x.powi(-n), &x.powi(n).recip()), "powi(x, -n) == powi(x, n).recip() bit for bit");
 }
 
